@@ -383,6 +383,15 @@ def char_call_roles(ctx, tabs):
                          "ShroudStrCopy%r: destination must be {c_var} (or a local pointer from it) with its full "
                          "capacity ({c_var_len} with len in buf_args, or the descriptor elem_len); buf_args=%r" % (tuple(args), bufs),
                          sample={"row": rname, "call": args, "buf_args": bufs})
+                # what is copied is what the LIBRARY left in the source: its length is the source's own length after the
+                # call (-1: strlen, or size()/length() of the std::string), never a length measured before the call
+                if len(args) == 4:
+                    src_len = args[3].replace(" ", "")
+                    stale = src_len in ("{c_var_trim}", "{c_var_len}") and args[2] != "{c_var}"
+                    ctx.item(ident + ":source-length-after-call", not stale,
+                             "ShroudStrCopy%r: the source length %s was measured on the argument BEFORE the call; the library may "
+                             "have changed the text (pass -1 or the string's own size)" % (tuple(args), args[3]),
+                             sample={"row": rname, "call": args})
             for args in calls_of(lines, "ShroudStrBlankFill"):
                 ok = len(args) == 2 and args[0] in ("{c_var}", "{cxx_var}") and cap_ok(args[1])
                 ctx.item("C10/T1/%s/%s.ShroudStrBlankFill:capacity" % (lang, rname), ok,
